@@ -34,7 +34,8 @@ def evaluate(root, props=None):
                 ck = (rule.__name__, repr(sorted(kwargs.items())))
                 if ck not in cache:
                     try:
-                        cache[ck] = rule(repo, "x", **kwargs)
+                        from verif_sa.core import call_rule
+                        cache[ck] = call_rule(rule, repo, "x", **kwargs)
                     except AnalysisError as e:
                         cache[ck] = e
                     except Exception as e:  # internal error of a rule: analysis error
